@@ -115,7 +115,8 @@ def handle (op : String) (j : Json) : Option (Except String Json) :=
       let tk ← gtreeOf (← j.getObjVal? "tree")
       let k ← getNatField j "k"
       pure (jObj [("per_commit", jTriples (perCommitLines k tk)),
-                  ("slow", jTriples (slowLines tk))])
+                  ("slow", jTriples (replayLines k tk)),
+                  ("state", jTriples (cumulativeLines tk))])
   | _ => none
 
 end GitAi.Driver.RemapD
